@@ -58,13 +58,66 @@ func scratchBase() string {
 	return os.TempDir()
 }
 
+// osRelNoID is an os-release that tells neither ID nor VERSION_ID (trimmed firmware images).
+const osRelNoID = "NAME=\"Custom Linux\"\nPRETTY_NAME=\"Custom Linux firmware\"\nHOME_URL=\"https://example.com/\"\n"
+
+// osRelVariants: how the scanned tree presents the os-release file that the OS extractors
+// consult (osrelease.GetOSRelease tries etc/os-release, then usr/lib/os-release). "" is the
+// default of every older case: a Debian os-release at etc/os-release.
+var osRelVariants = []string{"", "usr_lib_only", "empty", "no_id", "absent", "etc_symlink", "etc_dir"}
+
+func osRelValid(v string) bool {
+	for _, x := range osRelVariants {
+		if x == v {
+			return true
+		}
+	}
+	return false
+}
+
+// osRelName is the class label of a variant.
+func osRelName(v string) string {
+	if v == "" {
+		return "etc"
+	}
+	return v
+}
+
+// osRelFiles returns the os-release entries of a variant, in the notation of auxFiles.
+func osRelFiles(v string) map[string]string {
+	switch v {
+	case "usr_lib_only":
+		return map[string]string{"usr/lib/os-release": "=" + osRelease}
+	case "empty":
+		return map[string]string{"etc/os-release": "="}
+	case "no_id":
+		return map[string]string{"etc/os-release": "=" + osRelNoID}
+	case "absent":
+		return map[string]string{}
+	case "etc_symlink":
+		// the layout of current distributions: etc/os-release -> ../usr/lib/os-release
+		return map[string]string{"usr/lib/os-release": "=" + osRelease, "etc/os-release": "@../usr/lib/os-release"}
+	case "etc_dir":
+		return map[string]string{"etc/os-release": "/"}
+	}
+	return map[string]string{"etc/os-release": "=" + osRelease}
+}
+
 // auxFiles returns the neighbour files (tree path -> repository-relative source, or literal
 // content when the source starts with "=") that accompany a fixture placed at treePath. They
 // are a deterministic function of (extractor, base fixture, path).
 func auxFiles(ext *extInfo, base, treePath string) map[string]string {
+	return auxFilesV(ext, base, treePath, "")
+}
+
+// auxFilesV is auxFiles under an os-release variant (see osRelVariants). Further notations of a
+// source: "@target" a symbolic link, "/" an empty directory.
+func auxFilesV(ext *extInfo, base, treePath, osrel string) map[string]string {
 	out := map[string]string{}
-	if treePath != "etc/os-release" {
-		out["etc/os-release"] = "=" + osRelease
+	for p, src := range osRelFiles(osrel) {
+		if p != treePath {
+			out[p] = src
+		}
 	}
 	if base == "" {
 		return out
@@ -128,6 +181,22 @@ func writeFileAt(root, rel string, data []byte, exec bool) error {
 func writeAux(root string, aux map[string]string) error {
 	for tp, src := range aux {
 		var data []byte
+		if strings.HasPrefix(src, "@") || src == "/" {
+			p := filepath.Join(root, filepath.FromSlash(tp))
+			if err := os.MkdirAll(filepath.Dir(p), 0o755); err != nil {
+				return err
+			}
+			var err error
+			if src == "/" {
+				err = os.MkdirAll(p, 0o755)
+			} else {
+				err = os.Symlink(src[1:], p)
+			}
+			if err != nil {
+				return err
+			}
+			continue
+		}
 		if strings.HasPrefix(src, "=") {
 			data = []byte(src[1:])
 		} else {
@@ -146,12 +215,12 @@ func writeAux(root string, aux map[string]string) error {
 
 // auxOverride returns the mutated content of the neighbour file a case mutates (nil when the
 // case mutates none, or names one the fixture does not have).
-func auxOverride(ext *extInfo, base, treePath, auxPath string, muts []Mut) map[string][]byte {
+func auxOverride(ext *extInfo, base, treePath, osrel, auxPath string, muts []Mut) map[string][]byte {
 	if auxPath == "" {
 		return nil
 	}
-	src, ok := auxFiles(ext, base, treePath)[auxPath]
-	if !ok {
+	src, ok := auxFilesV(ext, base, treePath, osrel)[auxPath]
+	if !ok || strings.HasPrefix(src, "@") || src == "/" {
 		return nil
 	}
 	var data []byte
@@ -258,8 +327,8 @@ func treeKey(ext *extInfo, treePath string, aux map[string]string) string {
 	return ext.Name + "\x00" + treePath + "\x00" + strings.Join(keys, "\x00")
 }
 
-func getTree(ext *extInfo, base, treePath string) (*workTree, string, error) {
-	aux := auxFiles(ext, base, treePath)
+func getTree(ext *extInfo, base, treePath, osrel string) (*workTree, string, error) {
+	aux := auxFilesV(ext, base, treePath, osrel)
 	key := treeKey(ext, treePath, aux)
 	treeMu.Lock()
 	defer treeMu.Unlock()
@@ -304,7 +373,12 @@ func dropTree(key string) {
 // (file opened through the scan FS, Info from the open file, Root set to the tree), under
 // recover and a watchdog.
 func runExtract(ext *extInfo, base, treePath string, data []byte, timeout time.Duration, over ...map[string][]byte) (runResult, error) {
-	w, key, err := getTree(ext, base, treePath)
+	return runExtractV(ext, base, treePath, "", data, timeout, over...)
+}
+
+// runExtractV is runExtract in a tree that presents os-release the way the variant says.
+func runExtractV(ext *extInfo, base, treePath, osrel string, data []byte, timeout time.Duration, over ...map[string][]byte) (runResult, error) {
+	w, key, err := getTree(ext, base, treePath, osrel)
 	if err != nil {
 		return runResult{}, fmt.Errorf("harness: %w", err)
 	}
